@@ -112,6 +112,14 @@ def timed_round(srv, rng, res, rn):
     c.cmd("FLUSHALL")
     c.cmd("SET", "live-src", "x")
     c.cmd("SADD", "other-set", "o")
+    if rng.random() < 0.35:
+        # a script that failed some time before has nothing to do with when keys die (whatever a script does
+        # to the clock it sees must end with the script, however the script ends)
+        c.cmd(*rng.choice([[b"EVAL", b"error('script fails')", b"0"],
+                           [b"EVAL", b"return redis.call('INCR', KEYS[1])", b"1", b"other-set"],
+                           [b"EVAL", b"redis.call('GET', 'live-src') return redis.call('NOSUCHCOMMAND')", b"0"],
+                           [b"EVAL", b"this is not lua", b"0"]]))
+        res.cell("round-after-failed-script")
     events = []          # (due time, kind, payload)
     keys = {}
     nkeys = 24
